@@ -44,16 +44,24 @@ EXPLANATION = (
     "comment-line / blank-line tests (guard valuation over the filters of comprehensions, filter() / filterfalse() -- predicate functions are evaluated in their own body "
     "-- and of the loops that add tokens; a generator helper may not finish without yielding, a helper may not return an empty value, "
     "for any other reason); "
-    "both input modes (file / string) reach tokenize(). "
+    "an iterator that a loop consumes is not advanced by next() elsewhere; "
+    "both input modes (file / string) reach tokenize(), file_path through open() / read_text() and pddl_str as the text itself. "
     "C11.eof: parse() must reject text that continues after the top-level form: after read_from_tokens a test of the same token "
     "container for emptiness under which 'tokens remain' raises and does not return. "
-    "C11.reader: guard valuation of read_from_tokens (private helpers inlined) over (input empty, first token is '(' / ')', next token "
+    "C11.reader: guard valuation of read_from_tokens (private helpers inlined; before that, exact local rewrites in _c11_util.prepared: a "
+    "local name bound once to a function value -- partial(getitem, tokens, 0), a lambda, a one-expression nested def, tokens.popleft, "
+    "partial(self.read_from_tokens, tokens) -- is replaced by that value where it is used, `for T in iter(F, S)` and comprehensions over it "
+    "become `while True: t = F(); if t == S: <else part>; break; ...`, a while test that calls a private helper becomes a test inside the "
+    "loop, `match` over literal patterns becomes the if chain, `X in (c1, c2)` the comparisons, `L = L + [e]` / `[*L, e]` on an un-aliased "
+    "local list `L.append(e)`; fields of private records that hold the token container count as the container) over (input empty, first "
+    "token is '(' / ')', next token "
     "is ')'): empty input raises (test or IndexError handler around the first access), a stray ')' raises, an atom is returned as the "
     "consumed token itself (table-driven dispatch -- TABLE.get(token[, default]) / TABLE[token] / getattr(self, NAMES[token]) over a dict "
     "display with constant keys, `token in TABLE`, `handler is None`, try / except KeyError around the lookup -- is first rewritten into the "
     "equivalent chain of token == <key> tests; operator.eq / ne / not_ / truth / contains count as the tests they are; a function value "
     "that stays uninterpreted is an ANALYSIS-ERROR), the '(' case consumes it, appends the result of the recursive call on the same tokens exactly once per "
-    "iteration exactly while the next token is not ')', consumes that ')' and returns that very list; parse() hands the unmodified "
+    "iteration exactly while the next token is not ')' (no second recursive call whose result is dropped, no other mutation of the container), "
+    "consumes that ')' and returns that very list; parse() hands the unmodified "
     "tokens of tokenize() to the reader."
 )
 UNDECIDED = "nothing essential beyond running it; still, these are necessary conditions, not an equivalence proof of the reader"
@@ -838,10 +846,14 @@ def _predicate_is(repo: Repo, fv: Optional[U.V], want: bool, depth: int = 0) -> 
     if meth is not None:
         return (want and meth in ("strip", "lstrip", "rstrip")) or (not want and meth == "isspace")
     fi = fv.value if fv.kind == "leaf" and isinstance(fv.value, FuncInfo) else None
-    if fi is None or fi.is_method:
+    if fi is not None and fi.is_method:
+        return False
+    if fi is None and fv.kind == "selfattr" and fv.ctx is not None and fv.ctx.cls:
+        fi = repo.find_method(fv.ctx.cls, fv.name)         # a bound method of the tokenizer used as the predicate
+    if fi is None:
         return False
     flat = U.flatten(repo, fi)
-    params = [x for x in flat.params]
+    params = [x for x in flat.params if x != flat.self_name]
     if len(params) != 1:
         return False
     W = _line_world(repo, flat)
@@ -884,6 +896,19 @@ def _line_filters(repo: Repo, f: FuncInfo, r: RuleResult, anchor: bool = True):
             if _predicate_is(repo, cv.args[0], want):
                 continue
             bad.append((c, f"the filter `{unparse(c, 60)}`"))
+    # an explicit iterator that a loop / comprehension consumes may not be advanced anywhere else (next(lines) skips a line)
+    looped = set()
+    for n in ast.walk(f.node):
+        if isinstance(n, (ast.For, ast.comprehension)) and isinstance(n.iter, ast.Name):
+            looped.add(n.iter.id)
+    for c in L.calls_in(f.node):
+        it = None
+        if isinstance(c.func, ast.Name) and c.func.id == "next" and c.args and isinstance(c.args[0], ast.Name):
+            it = c.args[0].id
+        elif isinstance(c.func, ast.Attribute) and c.func.attr == "__next__" and isinstance(c.func.value, ast.Name):
+            it = c.func.value.id
+        if it is not None and it in looped:
+            bad.append((c, f"`{unparse(c, 60)}`, which advances the iterator of a loop a second time,"))
     # statement loops: the additions to a container must be certain in every iteration
     add_nodes: Dict[int, str] = {}
     for c in L.calls_in(f.node):
@@ -996,6 +1021,25 @@ def _in_loop(g: C.CFG, n: int, head: int) -> bool:
     return False
 
 
+_FLOWS: Dict[int, Tuple[object, U.Flow]] = {}
+
+
+def _flow_const(p, e: ast.AST) -> Optional[Set[object]]:
+    """the constant(s) the value-flow evaluator finds for an expression (None: not constant)"""
+    if getattr(p, "f", None) is None or getattr(p, "repo", None) is None:
+        return None
+    if id(p) not in _FLOWS:
+        _FLOWS[id(p)] = (p, U.Flow(p.repo, p.f))
+    try:
+        v = _FLOWS[id(p)][1].value(e)
+    except Exception:
+        return None
+    parts = v.parts if v.kind == "alt" else [v]
+    if not parts or not all(x.kind == "const" and isinstance(x.value, (str, int, type(None))) for x in parts):
+        return None
+    return {x.value for x in parts}
+
+
 def _const_str(p, e: ast.AST) -> Optional[Set[object]]:
     """the constant values an expression can have (module constants are folded by the provenance engine); None when it is not constant"""
     try:
@@ -1003,6 +1047,9 @@ def _const_str(p, e: ast.AST) -> Optional[Set[object]]:
     except KeyError:
         return None
     out = set()
+    if isinstance(e, (ast.Subscript, ast.Call, ast.Attribute, ast.BinOp, ast.JoinedStr)) and not all(len(x) == 1 and x[0].startswith("const:") for x in tr):
+        # an element of a constant table (PARENS[1], Tokens.CLOSE, "{}".format(")") ..): evaluated by the value-flow evaluator
+        return _flow_const(p, e)
     for x in tr:
         if len(x) == 1 and x[0].startswith("const:"):
             try:
@@ -1169,7 +1216,12 @@ def rule_pipeline(repo: Repo) -> RuleResult:
 
     # (4) both input modes reach the tokens
     r.site(init.qn + " [input modes]")
-    if {"param:file_path", "param:pddl_str"} <= sources:
+    crossed = [st for st in states if st.root_home is not None and st.root_home.qn == init.qn and
+               ((st.root == "param:file_path" and not st.via_file) or (st.root == "param:pddl_str" and st.via_file))]
+    if crossed:
+        r.fail(Finding("C11.pipeline", init, "input-modes", "the two inputs are mixed up: " + "; ".join(sorted(
+            {"file_path is used as the text itself" if st.root == "param:file_path" else "pddl_str is opened as a file" for st in crossed}))))
+    elif {"param:file_path", "param:pddl_str"} <= sources:
         r.ok({"modes": sorted(sources)})
     else:
         r.fail(Finding("C11.pipeline", init, "input-modes", f"the tokens are fed from {sorted(sources)} only"))
@@ -1226,7 +1278,7 @@ def _empty_atom(e: ast.AST, is_tokens, pm: dict) -> Optional[str]:
 def rule_eof(repo: Repo) -> RuleResult:
     r = RuleResult("C11.eof", "parse() rejects text that continues after the closing parenthesis of the top-level form",
                    "rejected with an error rather than truncated")
-    f = L.fn(repo, PARSE)
+    f = _fn(repo, PARSE)
     p = L.prov(repo, f)
     g = C.cfg_of(f.node)
     pm = L.parents_of(f)
@@ -1558,8 +1610,8 @@ def _undispatch(repo: Repo, fi: FuncInfo) -> FuncInfo:
 
 
 def _fn(repo: Repo, spec: str) -> FuncInfo:
-    """L.fn after the dispatch pre-pass"""
-    return U.flatten(repo, _undispatch(repo, repo.func(spec)), 4)
+    """L.fn after the dispatch pre-pass and the local normalisations of function values / sentinel iterators (_c11_util.prepared)"""
+    return U.prepared(repo, _undispatch(repo, repo.func(spec)), 4)
 
 
 def _unresolved_function_values(repo: Repo, f: FuncInfo) -> Optional[ast.AST]:
@@ -1604,7 +1656,16 @@ def rule_reader(repo: Repo) -> RuleResult:
     tokp = params[0]
 
     def is_tokens(x) -> bool:
-        return L.is_param(p, x, tokp)
+        if L.is_param(p, x, tokp):
+            return True
+        if not isinstance(x, ast.Attribute):
+            return False
+        # a field of a private record that holds the parameter (Step(head=.., rest=tokens).rest)
+        try:
+            tr = {U.strip_record_trips(repo, f.mod.name, y) for y in p.trace(x)}
+        except KeyError:
+            return False
+        return bool(tr) and tr == {(f"param:{tokp}",)}
 
     # statements that consume the first token of the container
     pop_nodes: Set[int] = set()
@@ -1617,6 +1678,9 @@ def rule_reader(repo: Repo) -> RuleResult:
         st = g.stmt[n]
         if isinstance(st, ast.Delete) and any(isinstance(t, ast.Subscript) and is_tokens(t.value) and isinstance(t.slice, ast.Constant) and t.slice.value == 0 for t in st.targets):
             pop_nodes.add(n)
+    for c in L.calls_in(f.node):
+        if isinstance(c.func, ast.Attribute) and c.func.attr in MUTATORS and c.func.attr != "popleft" and is_tokens(c.func.value):
+            raise AnalysisError(f"read_from_tokens: `{unparse(c, 60)}` changes the token container in a way that is not interpreted")
     after_pop: Set[int] = set()
     for n in pop_nodes:
         after_pop |= C.reachable_from(g, n) - ({n} if g.loop_of.get(n) is None else set())
@@ -1735,7 +1799,7 @@ def rule_reader(repo: Repo) -> RuleResult:
         return bool(tr) and (tr <= HEAD or (tr <= PEEK and bool(pop_nodes & seen)))
 
     ok = bool(atom_rets) and all(is_head_token(x_.value) for x_ in atom_rets) and g.exit in seen
-    implicit_none = any(m in seen and g.kind[m] != "return" for m, _l in g.pred[g.exit])
+    implicit_none = g.exit in G.reach(val_atom, avoid=rets)        # the end of the function can be reached without a return statement
     if ok and not any(n in seen and n not in eafp_nodes for n in raises) and not implicit_none:
         r.ok({"atom": "the popped token itself"})
     else:
@@ -1750,7 +1814,7 @@ def rule_reader(repo: Repo) -> RuleResult:
         r.fail(Finding("C11.reader", f, "list-branch", f"the '(' branch does not collect every sub-form up to the matching ')' and consume it: {why}"))
 
     # ---- parse() reads from tokenize()
-    pf = L.fn(repo, PARSE)
+    pf = _fn(repo, PARSE)
     pp = L.prov(repo, pf)
     r.site(pf.qn)
     ok = False
@@ -1851,6 +1915,10 @@ def _list_branch(f: FuncInfo, p, g: C.CFG, G: L.Guards, tokp: str, is_tokens, po
         return "the recursive result is added at more than one place"
     el, site = adds[0]
     an = g.node_containing(site) if not isinstance(site, ast.stmt) else g.node_of(site)
+    # the reader is called once per sub-form: a second recursive call (whose result is dropped or used otherwise) consumes a sub-form
+    rec_calls = [c for c in L.calls_in(f.node) if callee_name(c) == f.name and g.node_containing(c) in seen]
+    if len(rec_calls) > 1:
+        return "the reader is called recursively at more than one place: a sub-form is consumed without being collected"
     head = g.loop_of.get(an)
     if head is None:
         return "the recursive call is not repeated in a loop"
@@ -1866,7 +1934,7 @@ def _list_branch(f: FuncInfo, p, g: C.CFG, G: L.Guards, tokp: str, is_tokens, po
     if an in sc:
         return "a sub-form is read although the next token is ')'"
     out_rets = [n for n in rets if n in sc]
-    if not out_rets or any(m in sc and g.kind[m] != "return" for m, _l in g.pred[g.exit]):
+    if not out_rets or g.exit in G.reach(vc, avoid=rets):        # (falling off the end: the exit reached around every return)
         return "after the matching ')' the list is not returned"
     pop_after = pop_nodes & C.reachable_from(g, head)
     if g.exit in G.reach(vc, avoid=pop_after):
